@@ -186,6 +186,17 @@ fn iso(a: &PortableRegistry, ia: u32, b: &PortableRegistry, ib: u32, m: &mut BTr
     match rename(ta, m) { Some(t) => &t == tb, None => false }
 }
 
+pub fn corpus_registries() -> Vec<PortableRegistry> {
+    let rs = roots();
+    let mut out = vec![];
+    let mut reg = Registry::new();
+    for r in &rs { reg.register_type(&(r.mt)()); }
+    out.push(reg.into());
+    for k in [5usize, 8, 11, 39, 40] { let mut reg = Registry::new(); reg.register_type(&(rs[k].mt)()); out.push(reg.into()); }
+    out.push(PortableRegistry { types: vec![] });
+    out
+}
+
 pub fn battery(seed: u64) -> Value {
     let rs = roots();
     let mut fails: Vec<Value> = vec![];
